@@ -1,5 +1,6 @@
 import Frp.Driver.Proto
 import Frp.Model.PluginChain
+import Frp.Model.PluginSite
 import Frp.Props.C15
 /-
   Driver engine "plugin": replays the harness trace (real `plugin.Manager`, stub plugins and real
@@ -11,6 +12,7 @@ import Frp.Props.C15
     call <Op> <a> <b>                            => <res> | <consulted>
     site <…>                                     => `siteExpected`
     sess <user> <script>                         => `sessExpected`
+    hist <script>                                => `histExpected`
       res       = ok <a'> <b'> | err <msg> | panic          (gated ops)
                 = ok | errs <id,id,…>                       (CloseProxy)
       consulted = - | <id>:<a>:<b>,<id>:<a>:<b>,…           (Handle calls, in order, content seen)
@@ -291,6 +293,212 @@ def sessExpected (m : Manager Content) (u : Str) (script : List SessTok) (impl :
       | none => false
     some (fin "ok" acc.res (wL ++ acc.wN ++ wC), acc.reported && prop)
 
+/-! ### `hist`: a history at the gated call sites of one real frps (see harness/eng_plugin_hist.go)
+
+  Several control connections, logins of every kind (empty / literal / an earlier slot's run id: live
+  ⇒ replacement, closed before ⇒ stale), behaviour flips of the registered plugins between steps,
+  repeated NewProxy / Ping / user + work connections.  The state machine replayed is the proved
+  `PluginSite.step` (`C15.site_proceeds_only_through_gate`, `C15.login_gated_every_kind`,
+  `C15.session_user_is_login_rewrite`, …); what the server decides apart from the plugins (token check,
+  proxy registration, the random run id) is taken over from the implementation.  Per step the requests
+  the plugin server received and whether the peer saw the operation go on are judged by
+  `C15.siteHoldsOn` (Login / NewUserConn: the address member is not compared). -/
+
+inductive HRid
+  | e | f (r : Str) | s (i : Nat)
+
+inductive HistTok
+  | L (rid : HRid) (user : Str) | X (i : Nat) | F (id : Nat) (b : Beh)
+  | N (i : Nat) (name : Str) | P (i : Nat) | C (k : Nat)
+
+def parseHistTok (t : String) : Option HistTok :=
+  match t.splitOn ":" with
+  | ["L", r, u] => do
+    let u ← unhx u
+    let rest := (r.drop 1).toString
+    let rid ← (if r = "e" then some HRid.e
+      else if r.startsWith "f" then (unhx rest).map HRid.f
+      else if r.startsWith "s" then rest.toNat?.map HRid.s
+      else none)
+    pure (.L rid u)
+  | ["X", i] => i.toNat?.map .X
+  | ["F", id, kind, x1, x2] => do
+    let id ← id.toNat?
+    let x1 ← unhx x1
+    let x2 ← unhx x2
+    let b ← behOf kind x1 x2
+    pure (.F id b)
+  | ["N", i, n] => do
+    let i ← i.toNat?
+    let n ← unhx n
+    pure (.N i n)
+  | ["P", i] => i.toNat?.map .P
+  | ["C", k] => k.toNat?.map .C
+  | _ => none
+
+def flipList (id : Nat) (b : Beh) (l : List (Plugin Content)) : List (Plugin Content) :=
+  l.map (fun p => if p.id = id then { p with handle := fun _ c => b.handle c } else p)
+
+/-- every plugin registered with this id answers with behaviour `b` from now on -/
+def flipMgr (m : Manager Content) (id : Nat) (b : Beh) : Manager Content :=
+  { loginPlugins := flipList id b m.loginPlugins
+    newProxyPlugins := flipList id b m.newProxyPlugins
+    closeProxyPlugins := flipList id b m.closeProxyPlugins
+    pingPlugins := flipList id b m.pingPlugins
+    newWorkConnPlugins := flipList id b m.newWorkConnPlugins
+    newUserConnPlugins := flipList id b m.newUserConnPlugins }
+
+structure HSlot where
+  rid : Str            -- what a later `s<i>` refers to
+  usable : Bool        -- the peer holds a logged-in control connection it has not closed itself
+
+structure HAcc where
+  srv : PluginSite.Srv := {}
+  mgr : Manager Content
+  slots : List HSlot := []
+  byStep : List (Option (Nat × Str)) := []     -- per step: an N step answered ok ↦ (slot, name)
+  outs : List String := []
+  wires : List String := []
+  prop : Bool := true
+  judge : Bool := true          -- false from the first step on whose outcome differs from the model's
+  panics : Bool := false
+  obsO : List String
+  obsW : List String
+
+/-- the requests of one step's wire whose op is `name`, as `Handle` calls -/
+def parseStepWire (name : String) (w : String) : Option (List (Seen Content)) :=
+  if w = "-" then some [] else
+  ((w.splitOn "+").filter (·.startsWith (name ++ ":"))).mapM (fun e =>
+    match e.splitOn ":" with
+    | _ :: i :: a :: b :: _ => do
+      let i ← i.toNat?
+      let a ← unhx a
+      let b ← unhx b
+      pure (i, (⟨a, b⟩ : Content))
+    | _ => none)
+
+def blankB (c : Content) : Content := ⟨c.a, []⟩
+
+/-- the property predicate for one visit, on the implementation's own wire and outcome -/
+def evHolds (e : PluginSite.Ev Content) (name : String) (blank : Bool) (obsW : String) (obsProceeded : Bool) : Bool :=
+  match parseStepWire name obsW with
+  | some cons => C15.siteHoldsOn (if blank then blankB else id) e.op e.chain e.offered obsProceeded cons
+  | none => false
+
+def evWire (e : PluginSite.Ev Content) (name : String) (blank : Bool) : List String :=
+  wireOf name e.op e.chain blank e.cons
+
+def HAcc.push (a : HAcc) (out : String) (wire : List String) (propStep : Bool) (ref : Option (Nat × Str) := none) : HAcc :=
+  { a with outs := a.outs ++ [out], wires := a.wires ++ [if wire.isEmpty then "-" else "+".intercalate wire],
+           byStep := a.byStep ++ [ref],
+           prop := a.prop && (!a.judge || propStep),
+           judge := a.judge && out == a.obsO.headD "?",
+           obsO := a.obsO.drop 1, obsW := a.obsW.drop 1 }
+
+def histIsPanic (e : PluginSite.Ev Content) : Bool :=
+  match e.res with
+  | .panic => true
+  | _ => false
+
+def histStep (a : HAcc) (t : HistTok) : HAcc :=
+  let o := a.obsO.headD "?"
+  let w := a.obsW.headD "-"
+  match t with
+  | .F id b => { a.push "-" [] true with mgr := flipMgr a.mgr id b }
+  | .X i =>
+    match a.slots[i]? with
+    | some sl =>
+      if sl.usable then
+        let r := PluginSite.step PluginSite.encContent a.mgr a.srv (.connClosed i)
+        { a.push "-" [] true with srv := r.1, slots := a.slots.set i { sl with usable := false } }
+      else a.push "-" [] true
+    | none => a.push "-" [] true
+  | .L rid user =>
+    let slot := a.slots.length
+    let reqRid : Str := match rid with
+      | .e => []
+      | .f r => r
+      | .s i => (a.slots[i]?.map (·.rid)).getD []
+    let obsRid : Str := if o.startsWith "ok:" then ((unhx (o.drop 3).toString).getD []) else []
+    let r := PluginSite.step PluginSite.encContent a.mgr a.srv (.login slot user reqRid obsRid (o != "no"))
+    match r.2 with
+    | [e] =>
+      if histIsPanic e then { a with panics := true } else
+      let newRid := ((r.1.bySlot slot).map (·.rid)).getD reqRid
+      let out := if e.proceeded then "ok:" ++ hx newRid else "no"
+      -- a LoginResp without error: the run id answered is the one of the content as rewritten
+      let ridOk := !(o.startsWith "ok:") || obsRid == newRid
+      { a.push out (evWire e "Login" true) (evHolds e "Login" true w (o.startsWith "ok:") && ridOk) with
+        srv := r.1, slots := a.slots ++ [⟨newRid, e.proceeded⟩] }
+    | _ => { a with panics := true }
+  | .N i name =>
+    match a.slots[i]? with
+    | some sl =>
+      if !sl.usable then a.push "dead" [] true else
+      let r := PluginSite.step PluginSite.encContent a.mgr a.srv (.newProxy i name (o != "no"))
+      match r.2 with
+      | [] => a.push "closed" [] true                      -- that session was replaced: the server hung up
+      | e :: _ =>
+        if histIsPanic e then { a with panics := true } else
+        let regName : Str := match e.res with
+          | .ok c => PluginSite.encContent.proxyName c
+          | _ => []
+        let out := if e.proceeded then "ok:" ++ hx regName else "no"
+        -- a NewProxyResp without error: the name answered is the one of the content as rewritten
+        let nameOk := !(o.startsWith "ok:") || (e.res.isOk && o == "ok:" ++ hx regName)
+        { a.push out (evWire e "NewProxy" false) (evHolds e "NewProxy" false w (o.startsWith "ok:") && nameOk)
+            (if e.proceeded then some (i, regName) else none) with srv := r.1 }
+    | none => a.push "dead" [] true
+  | .P i =>
+    match a.slots[i]? with
+    | some sl =>
+      if !sl.usable then a.push "dead" [] true else
+      let r := PluginSite.step PluginSite.encContent a.mgr a.srv (.ping i)
+      match r.2 with
+      | [] => a.push "closed" [] true
+      | e :: _ =>
+        if histIsPanic e then { a with panics := true } else
+        a.push (if e.proceeded then "ok" else "no") (evWire e "Ping" false) (evHolds e "Ping" false w (o == "ok"))
+    | none => a.push "dead" [] true
+  | .C k =>
+    match (a.byStep[k]?).join with
+    | none => a.push "-" [] true
+    | some (slot, name) =>
+      match a.slots[slot]?, a.srv.bySlot slot with
+      | some sl, some ctl =>
+        if !sl.usable then a.push "-" [] true else
+        -- the visitor was not admitted (e.g. the plugins rewrote the proxy into one of another type):
+        -- no user connection reached the proxy; taken over from the implementation
+        if o == "-" then a.push "-" [] true else
+        let rU := PluginSite.step PluginSite.encContent a.mgr a.srv (.newUserConn name)
+        match rU.2 with
+        | [] => a.push "-" [] true
+        | eU :: _ =>
+          if histIsPanic eU then { a with panics := true } else
+          let obsU := o.startsWith "ok/"
+          let pU := evHolds eU "NewUserConn" true w obsU
+          if !eU.proceeded then a.push "no/-" (evWire eU "NewUserConn" true) pU else
+          let rW := PluginSite.step PluginSite.encContent a.mgr a.srv (.newWorkConn ctl.rid)
+          match rW.2 with
+          | [] => a.push "ok/eof" (evWire eU "NewUserConn" true) pU
+          | eW :: _ =>
+            if histIsPanic eW then { a with panics := true } else
+            a.push (if eW.proceeded then "ok/ok" else "ok/no")
+              (evWire eU "NewUserConn" true ++ evWire eW "NewWorkConn" false)
+              (pU && evHolds eW "NewWorkConn" false w (o == "ok/ok"))
+      | _, _ => a.push "-" [] true                        -- the session of that proxy is gone
+
+/-- (expected result line, property predicate on the implementation's own results) -/
+def histExpected (m : Manager Content) (script : List HistTok) (impl : String) : Option (String × Bool) :=
+  let (obsO, obsW) := match impl.splitOn " | " with
+    | [r, w] => (((r.drop 2).toString).splitOn ",", w.splitOn ";")
+    | _ => ([], [])
+  let acc := script.foldl histStep ({ mgr := m, obsO := obsO, obsW := obsW } : HAcc)
+  if acc.panics then none else
+  some ("H=" ++ ",".intercalate acc.outs ++ " | " ++ ";".intercalate acc.wires, acc.prop)
+
+def parseHist (s : String) : Option (List HistTok) := (s.splitOn ",").mapM parseHistTok
+
 def pluginStep (st : PluginState) (tok : List String) (impl : String) : PluginState × Verdict :=
   match tok with
   | ["reset"] => ({}, verdictOf "-" impl)
@@ -347,6 +555,15 @@ def pluginStep (st : PluginState) (tok : List String) (impl : String) : PluginSt
       | none => (st, .skip "model panics")
       | some (e, prop) => (st, verdictOf e impl (some (e == impl && prop)))
     | _, _ => (st, .bad "sess")
+  | ["hist", script] =>
+    if impl.startsWith "skip" || impl.startsWith "infra" then (st, .skip impl) else
+    if (impl.splitOn "timeout").length > 1 then (st, .skip "timeout") else
+    match parseHist script with
+    | some script =>
+      match histExpected st.mgr script impl with
+      | none => (st, .skip "model panics")
+      | some (e, prop) => (st, verdictOf e impl (some prop))
+    | none => (st, .bad "hist")
   | _ => (st, .bad "op")
 
 def plugin : Engine := { State := PluginState, init := {}, step := pluginStep }
